@@ -6,7 +6,10 @@ CHARS (chars().count(), Vec<char>::len) are propagated through scalar
 arithmetic and Option/min/max plumbing; reported are
   * a BYTES-tagged value used as the count of skip/take/nth/step_by on an
     iterator over characters (or as index into a Vec<char>),
-  * a comparison between a BYTES-tagged and a CHARS-tagged value."""
+  * a comparison between a BYTES-tagged and a CHARS-tagged value.
+A *position on the character iterator* — the index that `chars().enumerate()` hands out — is a CHARS quantity too
+(tag POS): comparing it with a bound is the same sink as handing that bound to skip/take, so `skip(a).take(n)` and a
+loop `for (i, c) in s.chars().enumerate() { if i >= end {break}; if i >= a {push(c)} }` are read alike."""
 import re
 from collections import defaultdict
 from .core import callee_of, callee_path, strip_refs, expr_mentions, op_const
@@ -40,6 +43,14 @@ def analyse(facts, bodies):
 
     def otags(b, o):
         return set(ptags(b, o["place"])) if o["k"] in ("Copy", "Move") else set()
+
+    def is_char_position(b, t):
+        """next() of Enumerate<Chars>: its payload's index is a position on the character iterator"""
+        p = callee_path(t) or ""
+        return p.endswith("::next") and "Enumerate<std::str::Chars" in (callee_of(t).get("full") or "")
+
+    def units_of(tg):
+        return set(tg) - {"POS"}
 
     def is_chars_count(b, t):
         p = callee_path(t) or ""
@@ -92,6 +103,8 @@ def analyse(facts, bodies):
                         new.add("BYTES")
                     elif is_chars_count(b, t):
                         new.add("CHARS")
+                    elif is_char_position(b, t):
+                        new |= {"CHARS", "POS"}
                     elif p == "std::vec::Vec::<T, A>::len" and "Vec<char>" in (callee_of(t).get("full") or ""):
                         new.add("CHARS")
                     else:
@@ -133,11 +146,22 @@ def analyse(facts, bodies):
                             res.sinks.append((b, bi, "%s on a character iterator is given a count measured in bytes" % p.rsplit("::", 1)[1]))
                 if CMP_CALL.search(p) and len(t["args"]) == 2:
                     a, c = otags(b, t["args"][0]), otags(b, t["args"][1])
+                    if ("POS" in a) != ("POS" in c):
+                        res.checked_sinks += 1
+                        if "BYTES" in (c if "POS" in a else a):
+                            res.sinks.append((b, bi, "%s compares a position on the character iterator with a count measured in bytes" % p.rsplit("::", 1)[1]))
+                    a, c = units_of(a), units_of(c)
                     if (a == {"BYTES"} and c == {"CHARS"}) or (a == {"CHARS"} and c == {"BYTES"}):
                         res.mixed.append((b, bi, None, "%s compares a byte length with a character count" % p.rsplit("::", 1)[1]))
             for si, s in enumerate(blk["stmts"]):
                 if s["k"] == "Assign" and s["rv"]["k"] == "BinaryOp" and s["rv"]["op"] in ("Lt", "Le", "Gt", "Ge", "Eq", "Ne", "Sub", "Add", "SubWithOverflow", "AddWithOverflow"):
                     a, c = otags(b, s["rv"]["a"]), otags(b, s["rv"]["b"])
+                    if ("POS" in a) != ("POS" in c) and s["rv"]["op"] in ("Lt", "Le", "Gt", "Ge", "Eq", "Ne"):
+                        res.checked_sinks += 1
+                        if "BYTES" in (c if "POS" in a else a):
+                            res.sinks.append((b, bi, "%s compares a position on the character iterator with a count measured in bytes" % s["rv"]["op"]))
+                            continue
+                    a, c = units_of(a), units_of(c)
                     if (a == {"BYTES"} and c == {"CHARS"}) or (a == {"CHARS"} and c == {"BYTES"}):
                         res.mixed.append((b, bi, si, "%s mixes a byte length with a character count" % s["rv"]["op"]))
     return res
